@@ -227,6 +227,23 @@ def _evaluate(dec):
                     if int(tv) == x:
                         nxt = d
                 bb = nxt
+            elif k == "call" and t["callee"].get("path") == "std::ops::Try::branch" and t["args"] and t["args"][0]["k"] in ("copy", "move") \
+                    and not t["args"][0]["place"]["proj"] and not t["dest"]["proj"] and t.get("target") is not None:
+                # `x?`: Ok/Some -> Continue(payload), Err/None -> Break
+                a = t["args"][0]["place"]["local"]
+                dl = t["dest"]["local"]
+                for k2 in [k3 for k3 in env if k3[0] == dl]:
+                    env.pop(k2, None)
+                va = env.get((a, "variant"))
+                aty = dec.local_ty(a)["s"]
+                if va is not None:
+                    is_res = aty.startswith("std::result::Result")
+                    good = (va[1] == 0) if is_res else (va[1] == 1)
+                    env[(dl, "variant")] = ("const", 0 if good else 1)
+                    pay = env.get((a, ("Ok" if is_res else "Some", 0)))
+                    if good and pay is not None:
+                        env[(dl, ("Continue", 0))] = pay
+                bb = t["target"]
             elif k == "call":
                 tracked = [val(a) for a in t["args"]]
                 tracked = [v for v in tracked if v is not None and v[0] in ("lin", "const")]
